@@ -211,6 +211,12 @@ const FRAMES: &[(&str, &[&str])] = &[
     ("enum-element-value", &["package", "a", ";", "enum", "E", "{", "A", "=", HOLE, ",", "B", "}"]),
     ("inside-generic", &["package", "a", ";", "parcelable", "P", "{", "Map", "<", HOLE, ">", "x", ";", "}"]),
     ("item-header", &["package", "a", ";", HOLE, "I", "{", "}"]),
+    ("annotation-parameter-value", &["package", "a", ";", "@A", "(", "x", "=", HOLE, ")", "interface", "I", "{", "}"]),
+    ("value-after-reference", &["package", "a", ";", "interface", "I", "{", "const", "int", "X", "=", "a", ".", "b", HOLE, ";", "}"]),
+    ("type-after-qualified-name", &["package", "a", ";", "parcelable", "P", "{", "a", ".", "b", HOLE, "x", ";", "}"]),
+    ("import-after-two-segments", &["package", "a", ";", "import", "a", ".", "b", HOLE, ";", "interface", "I", "{", "}"]),
+    ("after-annotation", &["package", "a", ";", "@A", HOLE, "interface", "I", "{", "}"]),
+    ("inside-braces-value", &["package", "a", ";", "parcelable", "P", "{", "int", "x", "=", "{", "1", HOLE, "}", ";", "}"]),
 ];
 
 fn slot_seqs(max_len: u32) -> u64 {
@@ -355,7 +361,7 @@ impl Prop for C03 {
         "C03"
     }
     fn rule(&self) -> String {
-        "enumerated: (1) seventeen well-formed frames with a hole (start of file, between statements, interface / parcelable / enum body, argument list, type, value, annotation parameters, after the item, qualified name, import name, forward-declaration name, after a method's parenthesis, enum element value, inside a generic, item header) x every sequence of token kinds (34 kinds, one representative text each) up to length 2 (thorough 3); (2) every keyword and reserved word and four near-keywords derived from each, in each of 14 identifier positions. Random: token-level mutations (insert / delete / replace / swap / duplicate / truncate / splice / keyword-as-name) of rendered documents under random layouts, token soups, and lexical boundary strings / character soups inside a value slot. Oracle: reference verdict (hand-written lexer + Earley recogniser over the transcribed grammar) well-formed <=> parse-stage result clean (tree and no diagnostic, via the hook accessor); malformed => >= 1 Error in the parse-stage result, all syntax diagnostics kept by validate(), first syntax diagnostic at the reference's first non-viable token; no tree => >= 1 Error; no keyword / reserved word stored as a user-chosen identifier in any returned tree. Non-trivial = malformed with the first error after token 0, or well-formed with > 8 tokens; distinct by token-kind sequence.".into()
+        "enumerated: (1) twenty-three well-formed frames with a hole (start of file, between statements, interface / parcelable / enum body, argument list, type, value, annotation parameters, after the item, qualified name, import name, forward-declaration name, after a method's parenthesis, enum element value, inside a generic, item header, annotation parameter value, after a value reference, after a qualified type name, after two import segments, after an annotation, inside a brace value) x every sequence of token kinds (34 kinds, one representative text each) up to length 2 (thorough 3); (2) every keyword and reserved word and four near-keywords derived from each, in each of 14 identifier positions. Random: token-level mutations (insert / delete / replace / swap / duplicate / truncate / splice / keyword-as-name) of rendered documents under random layouts, token soups, and lexical boundary strings / character soups inside a value slot. Oracle: reference verdict (hand-written lexer + Earley recogniser over the transcribed grammar) well-formed <=> parse-stage result clean (tree and no diagnostic, via the hook accessor); malformed => >= 1 Error in the parse-stage result, all syntax diagnostics kept by validate(), first syntax diagnostic at the reference's first non-viable token; no tree => >= 1 Error; no keyword / reserved word stored as a user-chosen identifier in any returned tree. Non-trivial = malformed with the first error after token 0, or well-formed with > 8 tokens; distinct by token-kind sequence.".into()
     }
     fn assumptions(&self) -> Vec<String> {
         vec![
@@ -374,7 +380,7 @@ impl Prop for C03 {
     }
     fn enum_count(&self, tier: Tier) -> u64 {
         let l = if tier == Tier::Quick { 2 } else { 3 };
-        FRAMES.len() as u64 * slot_seqs(l) + (NAME_FRAMES.len() * name_words().len()) as u64 + (LEXICAL.len() * 2) as u64 + MANY.len() as u64 * 3
+        FRAMES.len() as u64 * slot_seqs(l) + (NAME_FRAMES.len() * name_words().len()) as u64 + (LEXICAL.len() * 4) as u64 + MANY.len() as u64 * 3
     }
     fn enum_case(&self, env: &Env, idx: u64, st: &mut Stats) -> Result<(), Fail> {
         let l = if env.tier == Tier::Quick { 2 } else { 3 };
@@ -386,16 +392,17 @@ impl Prop for C03 {
         } else if idx < n_slots + n_names {
             let (t, w) = name_case(idx - n_slots);
             (t, w, "name-slot")
-        } else if idx >= n_slots + n_names + (LEXICAL.len() * 2) as u64 {
-            let (t, w) = many_case((idx - n_slots - n_names - (LEXICAL.len() * 2) as u64) as usize);
+        } else if idx >= n_slots + n_names + (LEXICAL.len() * 4) as u64 {
+            let (t, w) = many_case((idx - n_slots - n_names - (LEXICAL.len() * 4) as u64) as usize);
             (t, w, "many-diagnostics")
         } else {
             let k = (idx - n_slots - n_names) as usize;
-            let s = LEXICAL[k / 2];
-            let t = if k % 2 == 0 {
-                format!("package a; interface I {{ const int X = {s} ; }}")
-            } else {
-                format!("package a; interface I {{ void {s}(); }}")
+            let s = LEXICAL[k / 4];
+            let t = match k % 4 {
+                0 => format!("package a; interface I {{ const int X = {s} ; }}"),
+                1 => format!("package a; interface I {{ void {s}(); }}"),
+                2 => format!("package a; {s} interface I {{ }}"),
+                _ => format!("package a; interface I {{ void f({s} int a); }}"),
             };
             (t, format!("lexical `{s}`"), "lexical")
         };
